@@ -58,7 +58,7 @@ DIVQ["unwindset"] = {"pstm_div:/while \\(n-- >= 0\\)/": 4, "vf_harness:/for \\(k
 DIVH["cases"] = [c for c in DIVH["cases"] if c["defs"]["VF_UB"] >= 1 and c["defs"]["VF_UA"] >= c["defs"]["VF_UB"]]
 for _c in DIVH["cases"]:
     _c["tier"] = "thorough"
-DIVH["cap_s"] = 3600
+DIVH["cap_s"] = 9000
 DIVH["unwind"] = 10
 DIVH["unwindset"] = {"pstm_div:/while \\(n-- >= 0\\)/": 5, "vf_harness:/for \\(k = 0/": 6, "pstm_count_bits:/./": 66}
 MODH = LIN("mod", 10, 2, (0,), extra={"VF_QBITS": 3, "VF_MOD": 1})
